@@ -657,6 +657,12 @@ def main(argv):
                     if key in reported:
                         continue
                     reported.add(key)
+                    if sig is None:
+                        again = C.confirm_failure(res, PROP, "c14", c, c, oracle)
+                        if again is None:
+                            continue
+                        if again[1] is not None:
+                            msg, o = again
                     res.violation({"property": PROP, "kind": "implementation violates property oracle", "what": msg, "case": c,
                                    "impl_obs": {k: v for k, v in o.items() if k != "accepted_seqs"}, "harness": "c14", "signature": sig},
                                   found_input=True, signature=sig)
